@@ -553,7 +553,10 @@ func evalSim(r *runner, u *parseUnit, c ParseCase, prop string) string {
 		}
 	}
 	if prop == "C07" {
-		if u.eNoErr != nil && u.eNoErr.Accepts(ids) {
+		// (only for conflict-free grammars: with -a the resolved machine does not
+		// recognise the whole language of a conflicting grammar, so a sentence
+		// may legitimately run into a syntax error and recover)
+		if u.eNoErr != nil && u.conf.States == 0 && u.eNoErr.Accepts(ids) {
 			// inertness, decided without the reference LR machine
 			if !o.ErrNil {
 				return fmt.Sprintf("grammar:\n%s\ninput %v is a sentence of the grammar without its error alternatives, but Parse failed", u.src, c.Toks)
